@@ -8,6 +8,7 @@ open Pg Pg.C02
 partial def keyOfJ : J → Option Key
   | .str s => some (.s s)
   | .int i => some (.i i)
+  | .bool b => some (.b b)
   | _ => none
 
 partial def valOfJ : J → Option Val
@@ -32,6 +33,7 @@ def argOfJ : J → Option Arg
 def keyToJ : Key → J
   | .s n => .str n
   | .i j => .int j
+  | .b v => .bool v
 
 partial def valToJ : Val → J
   | .none => .null
